@@ -97,9 +97,9 @@ def durOf (c : Cfg) (evs : List EvB) : Nat → Nat := fun j => (timingOf c evs).
 def okCheck (evs : List EvB) : Bool :=
   evs.all fun e => match e with | .bodyEnd _ ok => ok | _ => true
 
-/-- no orchestration fails -/
+/-- no orchestration fails, and the top-level task is not cancelled from outside -/
 def nfCheck (evs : List EvB) : Bool :=
-  evs.all fun e => match e with | .orchFail _ => false | _ => true
+  evs.all fun e => match e with | .orchFail _ => false | .extCancel => false | _ => true
 
 /-- no shutdown handler is pending in a state in which the clock advances -/
 def zeroCheck (c : Cfg) : StB → List EvB → Bool
